@@ -258,6 +258,23 @@ Theorem C16_value_param_copies : forall st t by_, fst (pstep st (PBump t 1 by_))
 Proof. exact value_param_copies. Qed.
 Print Assumptions C16_value_param_copies.
 
+(* the aliasing theorem is about histories without non-index properties; those
+   embed into the full machine that the correspondence run evaluates ... *)
+Theorem C16_expando_free_embeds : forall addr ideal ops s,
+  sxrun addr ideal (s, None) (map XS ops) = srun addr ideal s ops.
+Proof. exact sxrun_embed. Qed.
+Print Assumptions C16_expando_free_embeds.
+
+(* ... and delete of a non-index property of a bridged slice (repaired in 1f2d1fa:
+   it used to recurse until the stack overflowed) is total: true, store untouched, property gone *)
+Theorem C16_delete_nonindex_total : forall addr ideal s xp,
+  let '((s', xp'), r) := sxstep addr ideal (s, xp) XDel in
+  r = o_bool true /\ s' = s /\ xp' = None /\
+  snd (sxstep addr ideal (s', xp') XGet) = o_undef /\
+  snd (sxstep addr ideal (s', xp') XHas) = o_bool false.
+Proof. exact delete_nonindex_total. Qed.
+Print Assumptions C16_delete_nonindex_total.
+
 (* non-vacuity of the implications above *)
 Example C16_exact_hyp_met :
   src_wf (KF64, 4617315517961601024) = true /\
